@@ -167,7 +167,7 @@ impl Prop for C16 {
     }
     fn rule(&self) -> &'static str {
         "one run = a hot/cold pair of SimStores (cold store needs warm-up; in half of the runs it rejects pack reads that were not warmed up) under the library's own HotColdBackend, plus a single-store twin fed the same history \
-         (backup, forget, repacking prune, config change, key add, key removal, copy of a snapshot from another repository into the pair; partly under seeded gate schedules). Oracles: (1) the combined hot+cold mutation log is replayed op by op and after EVERY op every key/snapshot/index/tree-pack file listed by cold must be in hot with identical bytes and no data pack may be in hot — i.e. at every crash prefix; \
+         (backup, forget, repacking prune - instant or marking only -, config change, key add, key removal, copy of a snapshot from another repository into the pair; partly under seeded gate schedules). Oracles: (1) the combined hot+cold mutation log is replayed op by op and after EVERY op every key/snapshot/index/tree-pack file listed by cold must be in hot with identical bytes and no data pack may be in hot — i.e. at every crash prefix; \
          (2) snapshot sets (tree id, time) equal the twin's and every snapshot reads back equal to its model; (3) for restore into an empty directory, a second restore onto that directory after damaging some of its files, repacking prune and repair_index (in half of the runs after losing some or all index files, so that pack headers must be read from the cold store; every snapshot must read back afterwards) on the rejecting cold store (all packs cooled down before each command) the commands succeed and every cold pack read is preceded by a warm-up request for that pack; \
          (4) a seeded subset (or all) of the hot files is removed, repair_hotcold_except_packs + repair_hotcold_packs run, the invariant holds again and check is clean; (5) one storage op of a backup fails on the hot or the cold store: the command returns Err and the per-op invariant still holds. \
          evaluations = ops replayed + end oracles; non-trivial = >= 10 ops replayed and a repack or a repair actually moved files; distinct = hash(history, config)"
@@ -240,7 +240,13 @@ impl Prop for C16 {
         let mut hist = vec![];
         let mut moved = false;
         let mut copy_src: Option<(Sim, FsModel)> = None;
-        let popts = PruneOptions::default().max_unused(LimitOption::Percentage(0)).max_repack(LimitOption::Unlimited).keep_delete(jiff::Span::new()).instant_delete(true);
+        // half of the runs prune without instant-delete: obsolete packs are only marked and stay in both stores
+        let instant = rng.chance(1, 2);
+        let popts = if instant {
+            PruneOptions::default().max_unused(LimitOption::Percentage(0)).max_repack(LimitOption::Unlimited).keep_delete(jiff::Span::new()).instant_delete(true)
+        } else {
+            PruneOptions::default().max_unused(LimitOption::Percentage(0)).max_repack(LimitOption::Unlimited).keep_delete(jiff::Span::new().hours(12))
+        };
         macro_rules! both {
             ($name:expr, $a:expr, $b:expr) => {{
                 let ra = $a;
